@@ -41,8 +41,7 @@ ALLOWED_AXIOMS = {
 # Coq.Numbers.Cyclic.Int63.Uint63: of_to_Z, add_spec, lsl_spec, …).  They are accepted by the
 # module that declares them (scan_forbidden() guarantees the development declares none itself)
 # and are named in the trusted base of every property that uses them.
-ALLOWED_AXIOM_MODULES = {'PrimFloat', 'PrimInt63', 'FloatAxioms', 'Uint63', 'Uint63Axioms',
-                         'FloatOps', 'SpecFloat'}
+ALLOWED_AXIOM_MODULES = {'PrimFloat', 'PrimInt63', 'FloatAxioms', 'Uint63'}
 
 
 def axiom_allowed(a):
